@@ -319,7 +319,11 @@ func Run[C any](t *testing.T, prop, rule string, o Opts, gen func(*rapid.T) C, i
 	}
 	st.Requested = checks
 	_ = flag.Set("rapid.checks", strconv.Itoa(checks))
-	_ = flag.Set("rapid.seed", strconv.FormatUint(Seed()^hash64([]byte(rule))>>1|1, 10))
+	rs := Seed()*0x9E3779B97F4A7C15 ^ hash64([]byte(rule))
+	if rs == 0 {
+		rs = 1
+	}
+	_ = flag.Set("rapid.seed", strconv.FormatUint(rs, 10))
 	_ = flag.Set("rapid.nofailfile", "true")
 	_ = flag.Set("rapid.shrinktime", env("VERIF_SHRINKTIME", "20s"))
 	rapid.Check(t, func(rt *rapid.T) {
